@@ -43,7 +43,11 @@ func runC16(r *core.Run) {
 		}
 		world := lnmodel.NewWorld(r.Seed*131 + int64(ci))
 		world.AutoDeliver = false
-		env, err := menv.New(world, "m0", core.TempDir("c16"), menv.Opts{Limits: lim, FeePpk: uint(ci%2) * 100})
+		backend := map[int]string{3: "cln", 1: "lnd"}[ci%4] // gonuts' own adapters and a fake node between mint and model
+		if backend != "" {
+			r.Count("configurations_through_the_"+backend+"_adapter", 1)
+		}
+		env, err := menv.New(world, "m0", core.TempDir("c16"), menv.Opts{Limits: lim, FeePpk: uint(ci%2) * 100, Backend: backend})
 		if err != nil {
 			r.Violate("setup", err.Error(), sig, nil)
 			return
